@@ -48,25 +48,58 @@ theorem effective_max_is_min (chanMax ma ib mb : Int) (mu : ℚ) (codes : List N
 
 /-! ### the retry loop, for every server script and every application op sequence -/
 
-/-- the state `newClientStream` starts from -/
-def fresh (cstr sstr dis : Bool) (pol : Option Policy) (maxBuf : Int) (thr : Option Throttler) (script : List Beh) : St :=
-  (St.init cstr sstr dis pol maxBuf thr script).opNew.1
+/-- the state after `newClientStream`: `ns` scripts the outcome of every stream creation of the RPC
+    (`some c` = transport.NewStream fails with status c after a successful pick), `f0` is the fuel of
+    the creation loop -/
+def fresh (cstr sstr dis : Bool) (pol : Option Policy) (maxBuf : Int) (thr : Option Throttler) (script : List Beh)
+    (ns : List (Option Nat)) (f0 : Nat) : St :=
+  ((St.init cstr sstr dis pol maxBuf thr script ns).opNew f0).1
+
+/-- `newClientStream` returned a stream -/
+def newOk (cstr sstr dis : Bool) (pol : Option Policy) (maxBuf : Int) (thr : Option Throttler) (script : List Beh)
+    (ns : List (Option Nat)) (f0 : Nat) : Prop :=
+  ((St.init cstr sstr dis pol maxBuf thr script ns).opNew f0).2.1 = .ok
 
 theorem fresh_inv (cstr sstr dis : Bool) (pol : Option Policy) (maxBuf : Int) (thr : Option Throttler) (script : List Beh)
-    (hm : 0 ≤ maxBuf) : OpInv (fresh cstr sstr dis pol maxBuf thr script) :=
-  opNew_inv _ rfl rfl rfl rfl rfl rfl hm
+    (ns : List (Option Nat)) (f0 : Nat)
+    (hm : 0 ≤ maxBuf) (hnew : newOk cstr sstr dis pol maxBuf thr script ns f0) : OpInv (fresh cstr sstr dis pol maxBuf thr script ns f0) :=
+  opNew_inv f0 _ rfl rfl rfl rfl rfl ⟨le_refl _, Or.inl rfl⟩ hm hnew
 
 /-- With `fuelFor` fuel the model's bound on retries inside one operation is never hit: the loop
     terminates by itself (one transparent retry plus at most maxAttempts timed ones). -/
 theorem fuel_suffices (cstr sstr dis : Bool) (pol : Option Policy) (maxBuf : Int) (thr : Option Throttler) (script : List Beh)
-    (hm : 0 ≤ maxBuf) (ops : List AppOp) (hops : ∀ o ∈ ops, o ≠ .new) (fuel : Nat)
-    (hf : fuelFor (fresh cstr sstr dis pol maxBuf thr script) ≤ fuel) :
-    ∀ r ∈ (St.run fuel (fresh cstr sstr dis pol maxBuf thr script) ops).2.1, r ≠ .outOfFuel :=
-  (run_inv fuel ops _ hops (fresh_inv cstr sstr dis pol maxBuf thr script hm) hf).2
+    (ns : List (Option Nat)) (f0 : Nat) (hm : 0 ≤ maxBuf) (hnew : newOk cstr sstr dis pol maxBuf thr script ns f0) (ops : List AppOp) (hops : ∀ o ∈ ops, o ≠ .new) (fuel : Nat)
+    (hf : fuelFor (fresh cstr sstr dis pol maxBuf thr script ns f0) ≤ fuel) :
+    ∀ r ∈ (St.run fuel (fresh cstr sstr dis pol maxBuf thr script ns f0) ops).2.1, r ≠ .outOfFuel :=
+  (run_inv fuel ops _ hops (fresh_inv cstr sstr dis pol maxBuf thr script ns f0 hm hnew) hf).2
 
-theorem opNew_pol (st : St) : st.opNew.1.pol = st.pol := by
-  unfold St.opNew
+theorem opNewOk_pol (st : St) : st.opNewOk.1.pol = st.pol := by
+  unfold St.opNewOk
   exact ((settle_frame _).pol).trans ((buffer_frame _ _ _).pol)
+
+theorem opNew_pol (fuel : Nat) (st : St) : (st.opNew fuel).1.pol = st.pol := by
+  induction fuel generalizing st with
+  | zero =>
+    rw [St.opNew]
+    cases hns : st.nsScript with
+    | nil => exact opNewOk_pol st
+    | cons o rest =>
+      cases o with
+      | none => exact opNewOk_pol _
+      | some c => simp only; split <;> rfl
+  | succ n ih =>
+    rw [St.opNew]
+    cases hns : st.nsScript with
+    | nil => exact opNewOk_pol st
+    | cons o rest =>
+      cases o with
+      | none => exact opNewOk_pol _
+      | some c =>
+        simp only
+        split
+        · rfl
+        · rfl
+        · exact (ih _).trans rfl
 
 theorem run_pol (fuel : Nat) (ops : List AppOp) (st : St) : (St.run fuel st ops).1.pol = st.pol := by
   induction ops generalizing st with
@@ -75,7 +108,7 @@ theorem run_pol (fuel : Nat) (ops : List AppOp) (st : St) : (St.run fuel st ops)
     simp only [St.run]
     rw [ih]
     cases o with
-    | new => exact opNew_pol st
+    | new => exact opNew_pol fuel st
     | send n =>
       simp only [St.step]; rw [(opSendW_fst fuel st n).1]; unfold St.opSend
       split_ifs
@@ -107,12 +140,12 @@ theorem run_pol (fuel : Nat) (ops : List AppOp) (st : St) : (St.run fuel st ops)
     policy's (already capped, see `effective_max_is_min`) maxAttempts; without a policy — or before
     any timed retry — it is the first. -/
 theorem attempts_bounded (cstr sstr dis : Bool) (pol : Option Policy) (maxBuf : Int) (thr : Option Throttler) (script : List Beh)
-    (hm : 0 ≤ maxBuf) (ops : List AppOp) (hops : ∀ o ∈ ops, o ≠ .new) (fuel : Nat)
-    (hf : fuelFor (fresh cstr sstr dis pol maxBuf thr script) ≤ fuel) :
-    ∀ a ∈ (St.run fuel (fresh cstr sstr dis pol maxBuf thr script) ops).1.atts,
+    (ns : List (Option Nat)) (f0 : Nat) (hm : 0 ≤ maxBuf) (hnew : newOk cstr sstr dis pol maxBuf thr script ns f0) (ops : List AppOp) (hops : ∀ o ∈ ops, o ≠ .new) (fuel : Nat)
+    (hf : fuelFor (fresh cstr sstr dis pol maxBuf thr script ns f0) ≤ fuel) :
+    ∀ a ∈ (St.run fuel (fresh cstr sstr dis pol maxBuf thr script ns f0) ops).1.atts,
       a.prev + 1 ≤ 1 ∨ ∃ rp, pol = some rp ∧ a.prev + 1 ≤ rp.maxAttempts := by
   intro a ha
-  have hinv := (run_inv fuel ops _ hops (fresh_inv cstr sstr dis pol maxBuf thr script hm) hf).1
+  have hinv := (run_inv fuel ops _ hops (fresh_inv cstr sstr dis pol maxBuf thr script ns f0 hm hnew) hf).1
   have hb := hinv.bound
   have hle := hb.1 a ha
   rcases hb.2.2 with h0 | ⟨rp, hp, hlt⟩
@@ -129,14 +162,14 @@ theorem attempts_bounded (cstr sstr dis : Bool) (pol : Option Policy) (maxBuf : 
     attempt ever carried to the server is a prefix of that history; and a live current attempt has
     carried all of it. -/
 theorem replay_exact (cstr sstr dis : Bool) (pol : Option Policy) (maxBuf : Int) (thr : Option Throttler) (script : List Beh)
-    (hm : 0 ≤ maxBuf) (ops : List AppOp) (hops : ∀ o ∈ ops, o ≠ .new) (fuel : Nat)
-    (hf : fuelFor (fresh cstr sstr dis pol maxBuf thr script) ≤ fuel) :
-    let st := (St.run fuel (fresh cstr sstr dis pol maxBuf thr script) ops).1
+    (ns : List (Option Nat)) (f0 : Nat) (hm : 0 ≤ maxBuf) (hnew : newOk cstr sstr dis pol maxBuf thr script ns f0) (ops : List AppOp) (hops : ∀ o ∈ ops, o ≠ .new) (fuel : Nat)
+    (hf : fuelFor (fresh cstr sstr dis pol maxBuf thr script ns f0) ≤ fuel) :
+    let st := (St.run fuel (fresh cstr sstr dis pol maxBuf thr script ns f0) ops).1
     (st.cs.committed = false → wireOf st.clientStreams st.replay = st.hist) ∧
     (∀ a ∈ st.atts, a.log <+: st.hist) ∧
     (∀ a, st.cur = some a → a.dead = false → a.log = st.hist) := by
   intro st
-  have hinv := (run_inv fuel ops _ hops (fresh_inv cstr sstr dis pol maxBuf thr script hm) hf).1
+  have hinv := (run_inv fuel ops _ hops (fresh_inv cstr sstr dis pol maxBuf thr script ns f0 hm hnew) hf).1
   have hr := hinv.good.1
   refine ⟨fun hc => by simpa using hr.buf hc, hr.pre, fun a hc hd => by simpa using hr.cur a hc hd⟩
 
@@ -165,13 +198,13 @@ theorem commit_on_delivery (fuel : Nat) (st : St) (op : AppOp) (hop : op ≠ .ne
 /-- … and so does exceeding the buffer limit: an uncommitted RPC never holds more than
     MaxRetryRPCBufferSize bytes, and the op that would exceed it commits instead of buffering. -/
 theorem commit_on_buffer_limit (cstr sstr dis : Bool) (pol : Option Policy) (maxBuf : Int) (thr : Option Throttler) (script : List Beh)
-    (hm : 0 ≤ maxBuf) (ops : List AppOp) (hops : ∀ o ∈ ops, o ≠ .new) (fuel : Nat)
-    (hf : fuelFor (fresh cstr sstr dis pol maxBuf thr script) ≤ fuel) :
-    let st := (St.run fuel (fresh cstr sstr dis pol maxBuf thr script) ops).1
+    (ns : List (Option Nat)) (f0 : Nat) (hm : 0 ≤ maxBuf) (hnew : newOk cstr sstr dis pol maxBuf thr script ns f0) (ops : List AppOp) (hops : ∀ o ∈ ops, o ≠ .new) (fuel : Nat)
+    (hf : fuelFor (fresh cstr sstr dis pol maxBuf thr script ns f0) ≤ fuel) :
+    let st := (St.run fuel (fresh cstr sstr dis pol maxBuf thr script ns f0) ops).1
     (st.cs.committed = false → st.replaySize ≤ st.maxBuf) ∧
     (∀ (sz : Int) (op : ROp), st.replaySize + sz > st.maxBuf → (st.buffer sz op).cs.committed = true) := by
   intro st
-  have hinv := (run_inv fuel ops _ hops (fresh_inv cstr sstr dis pol maxBuf thr script hm) hf).1
+  have hinv := (run_inv fuel ops _ hops (fresh_inv cstr sstr dis pol maxBuf thr script ns f0 hm hnew) hf).1
   refine ⟨hinv.size, ?_⟩
   intro sz op hgt
   simp only [St.buffer]
@@ -182,9 +215,27 @@ theorem commit_on_buffer_limit (cstr sstr dis : Bool) (pol : Option Policy) (max
 /-- Negative limits: the very first `bufferForRetryLocked(0, op, nil)` exceeds the limit and commits
     (the nil cleanup is skipped since /repo f1630c1; before that NewStream panicked there: F33). -/
 theorem negative_limit_commits_at_once (cstr sstr dis : Bool) (pol : Option Policy) (maxBuf : Int) (thr : Option Throttler)
-    (script : List Beh) (hm : maxBuf < 0) : (fresh cstr sstr dis pol maxBuf thr script).cs.committed = true := by
-  unfold fresh St.opNew
-  simp only [St.settle, St.newAttempt, St.buffer, St.init]
-  simp [St.commit, hm]
+    (script : List Beh) (f0 : Nat) (hm : maxBuf < 0) : (fresh cstr sstr dis pol maxBuf thr script [] f0).cs.committed = true := by
+  unfold fresh
+  cases f0 <;> (rw [St.opNew]; simp [St.init, St.opNewOk, St.settle, St.newAttempt, St.buffer, St.commit, hm])
+
+/-- **Concurrent use** (one goroutine in SendMsg, one in RecvMsg).  In the schedule `cs.mu` leaves open —
+    the receiver fails, retries and replays the buffer while the sender sits between its transport write
+    and re-locking — replay exactness is kept: afterwards the buffer still spells the application's
+    history, every attempt's wire log is a prefix of it and the live current attempt carries all of it,
+    so the message written to the replaced attempt has been sent again on the current one
+    (`withRetry`'s `a != cs.attempt` re-run, whatever the result of the op on the old attempt was). -/
+theorem concurrent_send_replay_exact (fuel : Nat) (st : St) (size : Nat) (h : Good st) :
+    (st.opSendRecv fuel size).2.1 = .outOfFuel ∨ (st.opSendRecv fuel size).2.2.1 = .outOfFuel ∨
+    (let s := (st.opSendRecv fuel size).1
+     (s.cs.committed = false → wireOf s.clientStreams s.replay = s.hist) ∧
+     (∀ a ∈ s.atts, a.log <+: s.hist) ∧
+     (∀ a, s.cur = some a → a.dead = false → a.log = s.hist)) := by
+  rcases opSendRecv_good fuel st size h with hf | hf | hg
+  · exact Or.inl hf
+  · exact Or.inr (Or.inl hf)
+  · right; right
+    have hr := hg.1
+    exact ⟨fun hc => by simpa using hr.buf hc, hr.pre, fun a hc hd => by simpa using hr.cur a hc hd⟩
 
 end GrpcProofs.C18
